@@ -236,6 +236,8 @@ class Sched:
             self._sw = {}
             for tid, ls, nxt in policy['sw']:
                 self._sw.setdefault((tid, ls), []).append(nxt)
+        from sim.boot import with_lines
+        self.with_lines = with_lines()
         self.tracers = [self._make_tracer(t) for t in range(nthreads)]
 
     # ---- policy -----------------------------------------------------------
@@ -327,16 +329,30 @@ class Sched:
         return glob
 
     def point(self, tid, frame):
+        try:
+            self._point(tid, frame)
+        except (SimInterrupt, SimAbort):
+            raise
+        except BaseException:                    # noqa
+            import traceback
+            self.die('harness', traceback.format_exc()[-1500:])
+
+    def _point(self, tid, frame):
         self.step += 1
         ls = self.lstep[tid] = self.lstep[tid] + 1
         self.digest = (self.digest * 1000003
                        + self.file_ids[frame.f_code.co_filename] * 4096
-                       + frame.f_lineno * 8 + tid) & 0xFFFFFFFFFFFFFFFF
+                       + (frame.f_lineno or 0) * 8 + tid
+                       ) & 0xFFFFFFFFFFFFFFFF
         if self.int_at[tid] == ls:
-            self.int_at[tid] = None
-            self.int_fired[tid] += 1
-            self.note_interrupt(tid, frame)
-            raise SimInterrupt('injected at local step %d' % ls)
+            if (frame.f_lineno or 0) in self.with_lines.get(
+                    frame.f_code.co_filename, ()):
+                self.int_at[tid] = ls + 1       # see boot.with_lines()
+            else:
+                self.int_at[tid] = None
+                self.int_fired[tid] += 1
+                self.note_interrupt(tid, frame)
+                raise SimInterrupt('injected at local step %d' % ls)
         if self.step > self.step_budget:
             self.die('budget', 'step budget %d exceeded (bounded liveness)'
                      % self.step_budget)
@@ -345,6 +361,15 @@ class Sched:
             self.switch(tid, nxt, 'pre', frame)
 
     def instr_point(self, code, offset):
+        try:
+            self._instr_point(code, offset)
+        except (SimInterrupt, SimAbort):
+            raise
+        except BaseException:                    # noqa
+            import traceback
+            self.die('harness', traceback.format_exc()[-1500:])
+
+    def _instr_point(self, code, offset):
         tid = getattr(_tl, 'tid', None)
         if tid is None or self.cur != tid:
             return
@@ -354,13 +379,18 @@ class Sched:
         self.digest = (self.digest * 1000003 + offset * 8 + 7
                        + tid) & 0xFFFFFFFFFFFFFFFF
         if self.int_at[tid] == ls:
-            self.int_at[tid] = None
-            self.int_fired[tid] += 1
-            self.note_interrupt(tid, sys._getframe(1))
-            raise SimInterrupt('injected at local step %d' % ls)
+            fr = sys._getframe(2)
+            if (fr.f_lineno or 0) in self.with_lines.get(
+                    fr.f_code.co_filename, ()) or fr.f_lineno is None:
+                self.int_at[tid] = ls + 1       # see boot.with_lines()
+            else:
+                self.int_at[tid] = None
+                self.int_fired[tid] += 1
+                self.note_interrupt(tid, fr)
+                raise SimInterrupt('injected at local step %d' % ls)
         nxt = self._choose_preempt(tid)
         if nxt != tid:
-            self.switch(tid, nxt, 'pre', sys._getframe(1))
+            self.switch(tid, nxt, 'pre', sys._getframe(2))
 
     def note_interrupt(self, tid, frame):
         info = self._stack(frame)
@@ -403,7 +433,7 @@ class Sched:
         if frame is not None:
             code = frame.f_code
             loc = (self.file_ids.get(code.co_filename, 0) * 4096
-                   + frame.f_lineno)
+                   + (frame.f_lineno or 0))
             info = self._stack(frame)
             self.stackinfo[tid] = info
             wl = self.watch_lock
@@ -583,13 +613,18 @@ class LineTracer:
         self.int_at = None
         self.fired = None
         self.digest = 0
+        from sim.boot import with_lines
+        wl = with_lines()
 
         def local(frame, event, arg):
             if event == 'line':
                 self.count += 1
                 self.digest = (self.digest * 1000003 + frame.f_lineno
                                ) & 0xFFFFFFFFFFFFFFFF
-                if self.count == self.int_at:
+                if self.count == self.int_at and frame.f_lineno in wl.get(
+                        frame.f_code.co_filename, ()):
+                    self.int_at += 1            # see boot.with_lines()
+                elif self.count == self.int_at:
                     self.int_at = None
                     code = frame.f_code
                     stack = []
